@@ -473,10 +473,12 @@ def run_units(units, tier, log=None):
         rec["reason"] = "; ".join(f"{c['description']} [{c['location']}]" for c in rec["failed_checks"][:4])
         if u.known and u.known_at:
             tl = b["text"].split("\n")
-            at_site = [e for e in definite if e["msg"].startswith("precondition not satisfied") and e["line"]
-                       and u.known_at in tl[e["line"] - 1]]
+            # the recorded obligation: a failed precondition at the recorded call, or a failed postcondition clause
+            # (Verus reports the clause's own line) -- identified by the text `known_at` on the reported line
+            at_site = [e for e in definite if (e["msg"].startswith("precondition not satisfied") or e["msg"].startswith("postcondition not satisfied"))
+                       and e["line"] and u.known_at in tl[e["line"] - 1]]
             if len(at_site) == len(definite) and len(at_site) == 1:
                 rec["verdict"] = "known-present"
                 rec["checks"] = 1
-                rec["reason"] = f"recorded finding {u.known}: the only failing obligation is the precondition at `{u.known_at}` [{rec['failed_checks'][0]['location']}]"
+                rec["reason"] = f"recorded finding {u.known}: the only failing obligation is the one at `{u.known_at}` [{rec['failed_checks'][0]['location']}]"
     return records
